@@ -6,6 +6,7 @@ import (
 	"fmt"
 	"go/types"
 	"os"
+	"os/exec"
 	"path/filepath"
 	"regexp"
 	"sort"
@@ -109,7 +110,6 @@ func (p *Prog) sweepFunctions() []*FuncInfo {
 	sort.Slice(out, func(i, j int) bool { return out[i].Key < out[j].Key })
 	return out
 }
-
 
 // ---------------------------------------------------------------------------
 // property checks
@@ -272,6 +272,26 @@ func (p *Prog) runProperty(prop, tier string, timeout int) *checkRun {
 	for _, r := range run.results {
 		run.solverTime += r.TimeS
 	}
+	// axioms imported from Lean: compile the file; the lemma obligation is discharged iff Lean accepts it
+	// without errors and without sorry
+	for _, lp := range p.leanProofs {
+		if !hasProp(lp.Props, prop) {
+			continue
+		}
+		ob := &Oblig{Name: "lean/" + lp.Label, Kind: "lemma", Func: "lean:" + lp.File, Label: lp.Label, Props: lp.Props,
+			Descr: "the axioms labelled " + lp.Label + " are theorems of " + lp.File + " (checked by Lean 4 with Mathlib)"}
+		start := time.Now()
+		cmd := exec.Command("lean", filepath.Join(verifDir, lp.File))
+		out, err := cmd.CombinedOutput()
+		res := &Result{Ob: ob, File: filepath.Join(verifDir, lp.File), Solver: "lean4+mathlib", TimeS: time.Since(start).Seconds(), Output: string(out)}
+		if err == nil && !strings.Contains(string(out), "error") && !strings.Contains(string(out), "sorry") {
+			res.Status = "unsat" // discharged
+		} else {
+			res.Status = "unknown"
+		}
+		run.results = append(run.results, res)
+		run.solverTime += res.TimeS
+	}
 	return run
 }
 
@@ -305,7 +325,7 @@ func cmdBaseline(args []string) {
 		n := 0
 		for _, r := range run.results {
 			n++
-			if discharged(r) && r.TimeS > 4.0 && !r.Ob.Canary {
+			if discharged(r) && r.TimeS > 4.0 && !r.Ob.Canary && !strings.HasPrefix(r.Ob.Func, "lean:") {
 				// claim only what discharges well inside the quick timeout (slow queries are the unstable ones)
 				fmt.Printf("not in baseline (slow, %.1fs): %s\n", r.TimeS, r.Ob.Name)
 				continue
@@ -454,6 +474,26 @@ func cmdCheck(args []string) {
 	}
 	exit := 0
 	os.MkdirAll(filepath.Join(verifDir, "replays", prop), 0o755)
+	// bounded stand-ins (labelled bounded, never counted as proved): run on the real code; a failure comes with
+	// the concrete input that fails
+	boundedReport = nil
+	boundedViolations := 0
+	for _, bc := range p.boundedChecks {
+		if !hasProp(bc.Props, prop) {
+			continue
+		}
+		rep, fails := runBounded(bc, prop, *tier)
+		boundedReport = append(boundedReport, rep)
+		for i, f := range fails {
+			path := filepath.Join(verifDir, "replays", prop, fmt.Sprintf("bounded_%s_%d.json", bc.Label, i))
+			data, _ := json.MarshalIndent(map[string]interface{}{"property": prop, "bounded_check": bc.Label, "test": bc.Test, "file": bc.File,
+				"failing_case": f, "how_to_replay": "cd /repo && go test -overlay <overlay mapping " + bc.File + " into the package> -vet=off -run " + bc.Test + " ."}, "", " ")
+			os.WriteFile(path, data, 0o644)
+			fmt.Printf("VIOLATION property=%s replay=%s obligation=bounded/%s status=failing-input %s\n", prop, path, bc.Label, truncate(f, 200))
+			boundedViolations++
+			exit = 1
+		}
+	}
 	for _, r := range violations {
 		path := writeViolation(p, prop, r)
 		suffix := ""
@@ -482,7 +522,7 @@ func cmdCheck(args []string) {
 	for _, d := range deadReturns {
 		unclaimed = append(unclaimed, d+" (return statement unreachable under the contracts: dead code or over-strong assumption; diagnostic only)")
 	}
-	writeEvidence(p, run, prop, *tier, records, nClaimed, nDischarged, len(violations), knownHit, unclaimed, undecided, time.Since(start).Seconds())
+	writeEvidence(p, run, prop, *tier, records, nClaimed, nDischarged, len(violations)+boundedViolations, knownHit, unclaimed, undecided, time.Since(start).Seconds())
 	fmt.Printf("%s %s: %d functions under contract, %d/%d claimed obligations discharged, %d further obligations generated (%d not discharged, not claimed), %d violations, %.1fs\n",
 		prop, *tier, len(run.funcs), nDischarged, nClaimed, len(records)-nClaimed, len(unclaimed), len(violations), time.Since(start).Seconds())
 	os.Exit(exit)
@@ -570,22 +610,23 @@ func writeEvidence(p *Prog, run *checkRun, prop, tier string, records []obRecord
 		"violations":  nViol,
 		"assumptions": assumptions,
 		"coverage": map[string]interface{}{
-			"obligations":               nClaimed,
-			"discharged":                nDischarged,
-			"checker_cmd":               "/verif/bin/check " + prop + " --tier " + tier,
-			"trusted_base":              trustedBase,
-			"samples":                   samples,
-			"functions_under_contract":  run.funcs,
-			"obligations_generated":     len(records),
-			"obligations_by_kind":       byKind,
-			"discharged_by_solver":      bySolver,
-			"solver_time_s":             run.solverTime,
+			"bounded_standins":           boundedReport,
+			"obligations":                nClaimed,
+			"discharged":                 nDischarged,
+			"checker_cmd":                "/verif/bin/check " + prop + " --tier " + tier,
+			"trusted_base":               trustedBase,
+			"samples":                    samples,
+			"functions_under_contract":   run.funcs,
+			"obligations_generated":      len(records),
+			"obligations_by_kind":        byKind,
+			"discharged_by_solver":       bySolver,
+			"solver_time_s":              run.solverTime,
 			"not_claimed_not_discharged": unclaimed,
-			"known_findings_announced":  known,
-			"undecided":                 undecided,
-			"out_of_subset":             run.unsupported,
-			"undecided_clauses":         undecidedClauses[prop],
-			"explanation": "obligations = contract clauses and automatic safety conditions generated from /repo's current source for the functions under contract that were discharged on the pinned tree (baseline/obligations.json); discharged = how many of them the SMT solvers proved unsat on this run",
+			"known_findings_announced":   known,
+			"undecided":                  undecided,
+			"out_of_subset":              run.unsupported,
+			"undecided_clauses":          undecidedClauses[prop],
+			"explanation":                "obligations = contract clauses and automatic safety conditions generated from /repo's current source for the functions under contract that were discharged on the pinned tree (baseline/obligations.json); discharged = how many of them the SMT solvers proved unsat on this run",
 		},
 	}
 	os.MkdirAll(filepath.Join(verifDir, "evidence"), 0o755)
@@ -611,4 +652,47 @@ func contractKind(kind string) bool {
 		return true
 	}
 	return false
+}
+
+var boundedReport []map[string]interface{}
+
+// runBounded runs a bounded stand-in test file in the package under /repo (through an overlay; nothing is written
+// to /repo) and returns its report and the failing cases that concern the property.
+func runBounded(bc boundedCheck, prop, tier string) (map[string]interface{}, []string) {
+	ovDir := filepath.Join(verifDir, "out", "bounded")
+	os.MkdirAll(ovDir, 0o755)
+	ov := filepath.Join(ovDir, bc.Label+".overlay.json")
+	data, _ := json.Marshal(map[string]interface{}{"Replace": map[string]string{
+		filepath.Join(repoDir, "zz_verif_bounded_"+bc.Label+"_test.go"): filepath.Join(verifDir, bc.File)}})
+	os.WriteFile(ov, data, 0o644)
+	start := time.Now()
+	cmd := exec.Command("go", "test", "-overlay", ov, "-vet=off", "-count=1", "-timeout", "900s", "-v", "-run", "^"+bc.Test+"$", ".")
+	cmd.Dir = repoDir
+	cmd.Env = append(os.Environ(), "VERIF_TIER="+tier, "GOFLAGS=-mod=mod", "GOPROXY=off", "GOSUMDB=off", "GOTOOLCHAIN=local")
+	out, err := cmd.CombinedOutput()
+	rep := map[string]interface{}{"name": bc.Label, "file": bc.File, "test": bc.Test, "label": "BOUNDED stand-in: not a proof, not counted among the discharged obligations",
+		"wall_s": time.Since(start).Seconds()}
+	var fails []string
+	summary := ""
+	for _, ln := range strings.Split(string(out), "\n") {
+		if strings.HasPrefix(ln, "BOUNDED-FAIL ") {
+			if strings.Contains(ln, "property="+prop+" ") {
+				fails = append(fails, strings.TrimPrefix(ln, "BOUNDED-FAIL "))
+			}
+		} else if strings.HasPrefix(ln, "BOUNDED ") {
+			summary = strings.TrimPrefix(ln, "BOUNDED ")
+		}
+	}
+	rep["summary"] = summary
+	rep["failures_for_this_property"] = len(fails)
+	if summary == "" {
+		// the harness did not run to completion (build error, panic, timeout): report it as a failing case
+		tail := string(out)
+		if len(tail) > 1500 {
+			tail = tail[len(tail)-1500:]
+		}
+		fails = append(fails, "bounded harness did not complete: "+strings.ReplaceAll(tail, "\n", " | "))
+		_ = err
+	}
+	return rep, fails
 }
